@@ -846,9 +846,10 @@ impl<E: Effect> Executor<E> {
     ) -> Result<(), Error> {
         let was_effecting = self.effecting.remove(&process_id);
 
-        // Convert result to either Ok(Value) or Err(Error)
+        // Convert result to either Ok(Value) or Err(Error). A result the process cannot hold
+        // (e.g. a read larger than the maximum binary size) fails that process, not the worker.
         let value_result = match result {
-            Ok(v) => Ok(self.inject_heap_data(v, &heap)?),
+            Ok(v) => self.inject_heap_data(v, &heap),
             Err(err_msg) => Err(Error::InvalidArgument(format!(
                 "Effect operation failed: {}",
                 err_msg
